@@ -10,6 +10,8 @@ import lib  # noqa
 TRANSLATORS: dict[str, str] = {
     # Gen file stem -> translator module (translate/<module>.py with generate() -> str)
     "GenSkeleton": "skeleton",
+    "GenLadder": "ladder",
+    "GenLocales": "locales",
 }
 
 
